@@ -55,6 +55,11 @@ def index_pattern(rng, n, size):
     """a 1-D indicator array of a given length into n rows, in one of the shapes callers produce: random, a run, reversed,
     constant, strided, sorted bootstrap, sorted with as many repeats as skipped rows (same span and length as a run)"""
     size = max(1, int(size))
+    if rng.rand() < 0.25:
+        # some rows addressed from the end (−1 is the last row), as NumPy indexing allows: the same rows, other indicators
+        base = index_pattern(rng, n, size)
+        neg = rng.rand(len(base)) < 0.5
+        return np.where(neg & (base >= 0), base - n, base)
     kind = ['random', 'run', 'reversed', 'constant', 'strided', 'sorted-bootstrap', 'skip-repeat', 'skip-repeat'][int(rng.randint(8))]
     if kind == 'random' or n < 3:
         return rng.randint(0, n, size=size)
